@@ -31,6 +31,11 @@ claimed.update({
    text="Write-freedom: for Step, Walk, consider, try, target, FuncAction.Exec, AddEvents and all 12 match functions, every store / map update / delete / in-place append is proved to target an object allocated during the call or the machine's own bindings map (`writes` clauses; 1300+ obligations), and `modifies nothing` holds extensionally - so no object reachable from a compiled *Spec is ever written by processing. Access discipline: every use of UpdatableSpec.spec is an argument of sync/atomic.LoadPointer/StorePointer or the initialising store of a fresh struct. Data-race freedom for all schedules of concurrent walks of distinct states then follows from Go's memory model (read-only sharing) - a paper step, stated in the evidence.",
    note="profile=pure: native actions are assumed not to write anything but their bindings argument; goja program immutability and the ECMAScript interpreter are not yet under contract; the race detector is not part of this technique and is not used."),
 })
+claimed.update({
+ "C05": dict(cat="proof", ref="DESIGN.md section 5/C05",
+   text="Loop contract on the real Walk (core/step.go) against Step's contract, for all specs, states, message sequences, limits and breakpoint maps: at most Limit strides (variant Limit - i proves termination of the walk loop itself); the pending queue is always a suffix of the given one (same backing array, same end); with the ghost function kappa (number of messages consumed before stride j): kappa(0)=0, kappa(j+1)=kappa(j)+[stride j consumed], every consumed value is pendings[kappa(j)] - i.e. strictly in order, each at most once; on Limited/BreakpointReached, Remaining is exactly pendings[consumed:]; Done implies the last stride did not move and nothing remains; Limited implies exactly Limit strides; every return path has a stop reason. Not machine-checked: batch-split equivalence (a relation between two whole runs) - it follows from the per-iteration contract by induction on the stride sequence (paper argument in DESIGN.md); stride continuity (From of stride j+1 equals the state produced by stride j up to map contents) is not yet stated.",
+   note="profile=pure; Step's clauses used here are proved in the same run; breakpoint predicates assumed not to modify anything; integers mathematical."),
+})
 na_reason = {
  "C11": "wall-clock promptness, goroutine counts and goja's interrupt polling cannot be expressed as function contracts; a contract on Exec would verify while the property is broken (DESIGN.md 5/C11)",
  "C17": "every clause is about interleavings of timer goroutines with requesters and about real time; sequential contracts on Add/Rem/cancel are trivially true (DESIGN.md 5/C17)",
